@@ -259,3 +259,14 @@ def _lemma(prog):
 
 
 lemmas.register("C03.R1", _lemma)
+
+
+def _lemma_r2(prog):
+    from ..engine import Report
+    rep = Report("C03")
+    rep.set_config(prog.config)
+    run(prog, rep)
+    return not any(v.rule in ("C03.R2", "C03.R3") for v in rep.violations)
+
+
+lemmas.register("C03.R2", _lemma_r2)
